@@ -29,6 +29,18 @@ fn shard(len: usize, seed: u64) -> Vec<u8> {
 }
 
 /// complete, valid one-shot calls made from inside another call's shard iterator; their results are checked
+/// set once a re-entrant call has run into its deadline: no further re-entrant calls are made in this process
+static REENTRANT_DEAD: std::sync::atomic::AtomicBool = std::sync::atomic::AtomicBool::new(false);
+
+fn kind_of(hseed: u64) -> u64 {
+    let k = hseed % 4;
+    if k == 3 && REENTRANT_DEAD.load(std::sync::atomic::Ordering::Relaxed) {
+        0
+    } else {
+        k
+    }
+}
+
 fn nested_calls() {
     let a = vec![1u8, 2, 3, 4];
     let b = vec![5u8, 6, 7, 8];
@@ -73,17 +85,36 @@ pub fn check(c: &OneShot, st: &mut Stats) -> CheckResult {
             let what = format!("encode({k}, {r}, shards of lengths {lens:?})");
             // the iterator kind is part of the input: exact slice / filtered longer container (loose upper
             // bound) / from_fn (no bounds at all)
-            let one = no_panic(|| match hseed % 4 {
+            let mut deadline_hit = false;
+            let one = no_panic(|| match kind_of(hseed) {
                 3 => {
                     // re-entrant: while the crate pulls shards from this iterator, the iterator itself makes
-                    // complete one-shot calls on the same thread (lazy multi-level coding does that)
-                    let mut n = 0;
-                    reed_solomon_simd::encode(*k, *r, shards.iter().inspect(|_| {
-                        n += 1;
-                        if n == 2 || n == 1 {
-                            nested_calls();
+                    // complete one-shot calls on the same thread (lazy multi-level coding does that). A faulty
+                    // implementation may self-deadlock here, so the call runs under a deadline.
+                    let (k, r, sh) = (*k, *r, shards.clone());
+                    match crate::runner::with_deadline(60, move || {
+                        no_panic(|| {
+                            let mut n = 0;
+                            reed_solomon_simd::encode(k, r, sh.iter().inspect(|_| {
+                                n += 1;
+                                if n <= 2 {
+                                    nested_calls();
+                                }
+                            }))
+                        })
+                    }) {
+                        Some(Ok(v)) => v,
+                        Some(Err(p)) => panic!("{p}"),
+                        None => {
+                            deadline_hit = true;
+                            REENTRANT_DEAD.store(true, std::sync::atomic::Ordering::Relaxed);
+                            // the abandoned thread may hold a process-wide lock of the crate for ever, which would
+                            // wedge every other worker: stop the whole check now, as inconclusive
+                            println!("INCONCLUSIVE property=C10 a re-entrant one-shot call (the shard iterator itself calls encode/decode) did not return within 60 s: suspected self-deadlock; a time-out is never reported as a violation");
+                            std::process::exit(2);
+                            Err(Error::TooFewOriginalShards { original_count: usize::MAX, original_received_count: usize::MAX })
                         }
-                    }))
+                    }
                 }
                 0 => reed_solomon_simd::encode(*k, *r, &shards),
                 1 => {
@@ -99,7 +130,12 @@ pub fn check(c: &OneShot, st: &mut Stats) -> CheckResult {
                 }
             })
             .map_err(|p| format!("{what} {p}"))?;
-            st.classf("iterator", ["slice", "filtered", "from_fn", "reentrant"][(hseed % 4) as usize]);
+            if deadline_hit {
+                // suspected self-deadlock of a re-entrant call: inconclusive, never a violation
+                st.count("inconclusive_reentrant_call_deadline", 1);
+                return Ok(());
+            }
+            st.classf("iterator", ["slice", "filtered", "from_fn", "reentrant"][kind_of(hseed) as usize]);
             if shards.is_empty() {
                 judge(&what, &one, &truth)?;
             } else {
@@ -123,25 +159,43 @@ pub fn check(c: &OneShot, st: &mut Stats) -> CheckResult {
             let rs: Vec<(usize, Vec<u8>)> = rv.iter().enumerate().map(|(j, &(i, l))| (i, shard(l, hseed ^ 0x8000 ^ j as u64))).collect();
             let truth = truth_oneshot_decode(*k, *r, &o, &rv);
             let what = format!("decode({k}, {r}, originals (index,len) {o:?}, recovery (index,len) {rv:?})");
-            let one = no_panic(|| match hseed % 4 {
+            let mut deadline_hit = false;
+            let one = no_panic(|| match kind_of(hseed) {
                 3 => {
-                    let (mut a, mut b) = (0, 0);
-                    reed_solomon_simd::decode(
-                        *k,
-                        *r,
-                        os.iter().map(|(i, s)| (*i, s)).inspect(|_| {
-                            a += 1;
-                            if a <= 2 {
-                                nested_calls();
-                            }
-                        }),
-                        rs.iter().map(|(i, s)| (*i, s)).inspect(|_| {
-                            b += 1;
-                            if b <= 2 {
-                                nested_calls();
-                            }
-                        }),
-                    )
+                    let (k, r, os2, rs2) = (*k, *r, os.clone(), rs.clone());
+                    match crate::runner::with_deadline(60, move || {
+                        no_panic(|| {
+                            let (mut a, mut b) = (0, 0);
+                            reed_solomon_simd::decode(
+                                k,
+                                r,
+                                os2.iter().map(|(i, s)| (*i, s)).inspect(|_| {
+                                    a += 1;
+                                    if a <= 2 {
+                                        nested_calls();
+                                    }
+                                }),
+                                rs2.iter().map(|(i, s)| (*i, s)).inspect(|_| {
+                                    b += 1;
+                                    if b <= 2 {
+                                        nested_calls();
+                                    }
+                                }),
+                            )
+                        })
+                    }) {
+                        Some(Ok(v)) => v,
+                        Some(Err(p)) => panic!("{p}"),
+                        None => {
+                            deadline_hit = true;
+                            REENTRANT_DEAD.store(true, std::sync::atomic::Ordering::Relaxed);
+                            // the abandoned thread may hold a process-wide lock of the crate for ever, which would
+                            // wedge every other worker: stop the whole check now, as inconclusive
+                            println!("INCONCLUSIVE property=C10 a re-entrant one-shot call (the shard iterator itself calls encode/decode) did not return within 60 s: suspected self-deadlock; a time-out is never reported as a violation");
+                            std::process::exit(2);
+                            Err(Error::NotEnoughShards { original_count: usize::MAX, original_received_count: 0, recovery_received_count: 0 })
+                        }
+                    }
                 }
                 0 => reed_solomon_simd::decode(*k, *r, os.iter().map(|(i, s)| (*i, s)), rs.iter().map(|(i, s)| (*i, s))),
                 1 => {
@@ -166,7 +220,12 @@ pub fn check(c: &OneShot, st: &mut Stats) -> CheckResult {
                 }
             })
             .map_err(|p| format!("{what} {p}"))?;
-            st.classf("iterator", ["slice", "filtered", "from_fn", "reentrant"][(hseed % 4) as usize]);
+            if deadline_hit {
+                // suspected self-deadlock of a re-entrant call: inconclusive, never a violation
+                st.count("inconclusive_reentrant_call_deadline", 1);
+                return Ok(());
+            }
+            st.classf("iterator", ["slice", "filtered", "from_fn", "reentrant"][kind_of(hseed) as usize]);
             let one: Result<BTreeMap<usize, Vec<u8>>, Error> = one.map(|m| m.into_iter().collect());
             if rs.is_empty() {
                 // no inferred size is documented: the property's own list decides
